@@ -270,8 +270,14 @@ class World(object):
         if op == "Sign":
             return {"op": "Sign", "uid": u, "params": SIGPARAMS[var % 2], "data": PLAIN}, [i], []
         if op == "SignatureVerify":
-            return {"op": "SignatureVerify", "uid": u, "params": SIGPARAMS[var % 2], "data": PLAIN,
-                    "sig": "ab" * 128}, [i], []
+            it = {"op": "SignatureVerify", "uid": u, "params": SIGPARAMS[var % 2], "data": PLAIN,
+                  "sig": "ab" * 128}
+            if var >= 2:
+                # the rarely used request forms: Digested Data instead of / next to Data
+                it["digested"] = "5c" * 32
+                if var == 2:
+                    it["data"] = None
+            return it, [i], []
         if op == "MAC":
             return {"op": "MAC", "uid": u, "params": {"alg": "HMAC_SHA256"}, "data": PLAIN}, [i], []
         if op == "DeriveKey":
@@ -822,6 +828,8 @@ def gen_history(draw):
                 s["aux"] = draw(st.integers(0, nobj - 1))
             if draw(st.integers(0, 3)) == 0:
                 s["var"] = 1
+            if op == "SignatureVerify" and draw(st.booleans()):
+                s["var"] = draw(st.sampled_from([2, 3]))
             steps.append(s)
     return {"kind": "hist", "steps": steps}
 
